@@ -13,6 +13,9 @@ from .values import (U, IntS, BoolS, MS, TRUTHY, NONE_U, V, VInt, VBool, VNone,
 from . import source as S
 
 
+HASHABLE = z3.Function("HASHABLE", U, BoolS)
+
+
 class Unsupported(Exception):
     pass
 
@@ -881,6 +884,13 @@ class Engine:
         r = self.lib.binop(st, op, a, b, line)
         if r is not None:
             return r
+        if isinstance(a, VOpt) or isinstance(b, VOpt):
+            # arithmetic on None raises TypeError
+            for o in (a, b):
+                if isinstance(o, VOpt):
+                    self.require(st, z3.Not(o.isnone), "TypeError", line)
+            a = a.val if isinstance(a, VOpt) else a
+            b = b.val if isinstance(b, VOpt) else b
         if _is_int_like(a) and _is_int_like(b):
             x, y = _as_int(a), _as_int(b)
             if isinstance(op, ast.Add):
@@ -1229,6 +1239,9 @@ class Engine:
         if isinstance(cont, VDict):
             self.check_unshared(st, cont, line)
             k = self.coerce(st, idx, "U")
+            if getattr(idx, "maybe_unhashable", False):
+                self.require(st, HASHABLE(k), "TypeError", line,
+                             "unhashable dict key")
             if cont.val is None:
                 vs = self.shape_of_value(v)
                 val = st.fresh("dval", z3.ArraySort(U, sort_of_shape(vs)))
